@@ -1107,5 +1107,58 @@ theorem all_nonNil_of_any (xs : List Val) (h : xs.any Val.isNil = false) : xs.al
 theorem all_nonNil_filter (xs : List Val) : (xs.filter nonNil).all nonNil = true := by
   simp
 
+/-! ## the recursion of the exported method -/
+
+theorem depth_mem : ∀ (xs : List Val) (v : Val), v ∈ xs → Val.depth v ≤ Val.depthL xs := by
+  intro xs
+  induction xs with
+  | nil => intro v h; cases h
+  | cons a r ih =>
+    intro v hv
+    simp only [Val.depthL]
+    rcases List.mem_cons.mp hv with rfl | hv
+    · exact Nat.le_max_left _ _
+    · exact Nat.le_trans (ih v hv) (Nat.le_max_right _ _)
+
+theorem compactL_eq : ∀ (xs : List Val), compactL xs = (xs.filter nonNil).map compactV := by
+  intro xs
+  induction xs with
+  | nil => simp [compactL]
+  | cons v r ih => cases hv : v.isNil <;> simp [compactL, nonNil, hv, ih]
+
+theorem compactV_stk (f : Form) (c : Cfg) (xs : List Val) :
+    compactV (.stk f c xs) = .stk f (compact ⟨c, xs⟩).cfg (compact ⟨c, xs⟩).xs := by
+  have : (⟨c, xs⟩ : Stk).readOnly = roCfg c := rfl
+  simp only [compactV, compact, this]
+  cases roCfg c <;> rfl
+
+theorem compactV_cnd_stk (f : Form) (c : Cfg) (kw : Text) (op : Op) (f2 : Form) (c2 : Cfg) (xs2 : List Val) :
+    compactV (.cnd f c kw op (.stk f2 c2 xs2)) = .cnd f c kw op (.stk f2 (compact ⟨c2, xs2⟩).cfg (compact ⟨c2, xs2⟩).xs) := by
+  have : (⟨c2, xs2⟩ : Stk).readOnly = roCfg c2 := rfl
+  simp only [compactV, compact, this]
+  cases roCfg c2 <;> rfl
+
+theorem defragMax_pos (args : List Int) : 0 < defragMax args := by
+  unfold defragMax Gen.calculateDefragMax
+  simp only
+  split
+  · split
+    · rename_i h; simpa using h
+    · decide
+  · decide
+
+theorem defragMax_idem (m : Int) (h : 0 < m) : defragMax [m] = m := by
+  simp [defragMax, Gen.calculateDefragMax, h]
+
+theorem mapM_ok {α β ε : Type} (f : α → Except ε β) (g : α → β) : ∀ (l : List α), (∀ a ∈ l, f a = .ok (g a)) →
+    l.mapM f = .ok (l.map g) := by
+  intro l
+  induction l with
+  | nil => intro _; rfl
+  | cons a r ih =>
+    intro h
+    rw [List.mapM_cons, h a (by simp), ih (fun b hb => h b (by simp [hb]))]
+    rfl
+
 end Stk
 end Stackage
